@@ -69,7 +69,13 @@ def relation(schema, parent, t):
 
 class OpGen:
     def __init__(self, d, schema, desc, *, max_depth=3, frag_p=0.5, directive_p=0.1, alias_p=0.25,
-                 var_p=0.5, mixins=None, lit_ctx="oplit", local_var_names=False, root_frag_reroll_p=0.7, root_family_p=0.0):
+                 var_p=0.5, mixins=None, lit_ctx="oplit", local_var_names=False, root_frag_reroll_p=0.7, root_family_p=0.0,
+                 enums_in_fragments_only_p=0.0):
+        # document-level mode: operations select no enum leaves themselves, fragments prefer them - every enum of the
+        # results is then reachable through fragments only
+        self.enums_in_fragments_only = bool(enums_in_fragments_only_p) and d.bool(enums_in_fragments_only_p)
+        if self.enums_in_fragments_only:
+            d.tag("op.enums_in_fragments_only")
         self.d = d
         self.schema = schema
         self.desc = desc
@@ -204,6 +210,12 @@ class OpGen:
                 self.fragments[f]["type"] == parent.name for f in self.frag_order if f != in_fragment):
             k = d.int(0, 1)  # a selection set that (almost) only spreads fragments
         chosen = d.sample(names, k) if names else []
+        if self.enums_in_fragments_only and names:
+            is_enum = lambda n: isinstance(get_named_type(fields[n].type), GraphQLEnumType)  # noqa: E731
+            if in_fragment is None:
+                chosen = [n for n in chosen if not is_enum(n)]
+            else:
+                chosen += [n for n in names if is_enum(n) and n not in chosen][:2]
         if d.bool(0.12):
             chosen.append("__typename")
             d.tag("op.explicit_typename")
@@ -277,6 +289,12 @@ class OpGen:
                     d.tag("op.custom_scalar_leaf")
             scope[ck] = text
             items.append(text)
+        # the same leaf selected twice under one key, once conditionally and once not (KF-C05-2 lives here)
+        leaves = [it for it in items if "{" not in it and "@" not in it and not it.endswith("__typename")]
+        if leaves and inline_depth == 0 and d.bool(0.05) and d.enabled("sel.same_key_mixed_conditions"):
+            twin = d.choice(leaves)
+            cond = f"{twin} @include(if: true)"
+            items.insert(items.index(twin) if d.bool(0.5) else len(items), cond)
         spread_here = scope.setdefault("__spreads", [])  # shared by the whole level (inline fragments included)
         narrowing = False  # a subtype-specific class is generated for this level
         same_spread = False
